@@ -198,6 +198,13 @@ def run(ctx):
 
 
 def replay(ctx, payload):
-    case = payload.get("case") or (payload.get("first_disagreement") or {}).get("case")
-    run_sequence(ctx, "replay", case["nq"], case["nb"], case["specs"], case["passes"])
-    return {"oracle_failures": ctx.oracle_failures, "disagreements": ctx.disagreements, "fails": bool(ctx.oracle_failures)}
+    from harness import framework
+    from harness.props import sem_common
+
+    suite, case = framework.replay_target(payload)
+    if case is None:
+        return framework.replay_nothing(payload)
+    if sem_common.is_semantics(suite, case):
+        return sem_common.replay(ctx, case)
+    run_sequence(ctx, suite or "replay", case["nq"], case["nb"], case["specs"], case["passes"])
+    return framework.replay_result(ctx)
